@@ -97,3 +97,28 @@ var rxSnapFetch = struct {
 	dirMT: []string{"application/vnd.claircore.filesystem"},
 	algos: []fxAlgoFact{{"sha256", 32}, {"sha512", 64}},
 }
+
+// buildGetQuery (Gen/Matchers queryNeeds / queryColumns / dbRangeTest): the rows as printed,
+// with, for queryColumns, the canonical form the evaluation produces (column:field or column:op value).
+var rxSnapQueryNeeds = []string{"DistributionDID:Distribution", "DistributionName:Distribution", "DistributionVersionID:Distribution",
+	"DistributionVersion:Distribution", "DistributionVersionCodeName:Distribution", "DistributionPrettyName:Distribution",
+	"DistributionCPE:Distribution", "DistributionArch:Distribution", "RepositoryName:Repository", "RepositoryKey:Repository"}
+
+var rxSnapQueryColumns = [][2]string{
+	{"PackageModule:package_module:Package.Module", "PackageModule:package_module:Package.Module"},
+	{"DistributionDID:dist_id:Distribution.DID", "DistributionDID:dist_id:Distribution.DID"},
+	{"DistributionName:dist_name:Distribution.Name", "DistributionName:dist_name:Distribution.Name"},
+	{"DistributionVersionID:dist_version_id:Distribution.VersionID", "DistributionVersionID:dist_version_id:Distribution.VersionID"},
+	{"DistributionVersion:dist_version:Distribution.Version", "DistributionVersion:dist_version:Distribution.Version"},
+	{"DistributionVersionCodeName:dist_version_code_name:Distribution.VersionCodeName", "DistributionVersionCodeName:dist_version_code_name:Distribution.VersionCodeName"},
+	{"DistributionPrettyName:dist_pretty_name:Distribution.PrettyName", "DistributionPrettyName:dist_pretty_name:Distribution.PrettyName"},
+	// the old text spelled the argument expression (&record.Distribution.CPE) and the goqu operator
+	{"DistributionCPE:dist_cpe:&record.Distribution.CPE", "DistributionCPE:dist_cpe:Distribution.CPE"},
+	{"DistributionArch:dist_arch:Distribution.Arch", "DistributionArch:dist_arch:Distribution.Arch"},
+	{"RepositoryName:repo_name:Repository.Name", "RepositoryName:repo_name:Repository.Name"},
+	{"RepositoryKey:repo_key:Repository.Key", "RepositoryKey:repo_key:Repository.Key"},
+	{"HasFixedInVersion:fixed_in_version:exp.NeqOp \"\"", "HasFixedInVersion:fixed_in_version:!= ''"},
+}
+
+// the literal pieces of the version-filter condition: open, separator, close, kind column, range test
+var rxSnapRangeTest = []string{"'{", ",", "}'::int[]", "version_kind", "vulnerable_range @> "}
